@@ -60,6 +60,14 @@ for d in sorted(glob.glob("/tmp/wt/*-out/*")) + sorted(glob.glob("/tmp/wt/*-out2
     meta["confirmed"] = {k: conf[k] for k in ("demo_passes_at_head", "applies", "builds", "suite_passes", "demo_fails_with_patch")}
     meta["confirmed"]["how"] = "bin/seedconfirm.py in a scratch worktree of /repo: HEAD+demo passes; HEAD+patch builds (with and without -tags verif), the 93 pinned tests pass, the demo fails"
     meta["demo_failure_excerpt"] = conf.get("patched_out", "")[-400:]
+    if "--confirm-only" in sys.argv:
+        old = json.load(open(metap)) if os.path.exists(metap) else {}
+        for k in ("checks", "caught_by", "ran", "sweep"):
+            if k in old:
+                meta[k] = old[k]
+        json.dump(meta, open(metap, "w"), indent=1)
+        print(tag, "confirmed", flush=True)
+        continue
     p = subprocess.run([sys.executable, os.path.join(HERE, "seedtest.py"), os.path.join(keep, "patch.diff")] + REL[pid], capture_output=True, text=True)
     out = p.stdout
     checks = {}
